@@ -1696,6 +1696,7 @@ type c19Stats struct {
 	viol              []Violation
 	inputs            int
 	accepted          int
+	encSample         string   // one EncodeSlab observation of the batch
 	trace             []string // trace lines of the batch (already formatted)
 	traceSteps        int
 	maxElapsed        time.Duration
@@ -1789,8 +1790,7 @@ func c19MetaObs(res c19Result) []uint64 {
 
 type c19Runner struct {
 	hardTimeout      time.Duration
-	post             bool
-	encodeViolations bool // report panics of EncodeSlab on accepted slabs as violations (else: events only)
+	post bool
 }
 
 // process runs one input on a worker and accounts for it.
@@ -1816,16 +1816,18 @@ func (r *c19Runner) process(st *c19Stats, slot *c19Slot, hist int, tag string, s
 	if res.accPanic != "" {
 		st.viol = append(st.viol, Violation{hist, tag, step, "C19: accessor panic on a slab returned by DecodeSlab: " + res.accPanic + " (mutation " + in.kind + ")", "input=" + hex.EncodeToString(d)})
 	}
+	// EncodeSlab on a slab decoded from attacker-made bytes is outside C19 (and outside C07, which covers
+	// registers produced by the library): observations only, never violations.
 	if res.encPanic != "" {
 		st.events["reencode_panic"]++
-		if r.encodeViolations {
-			st.viol = append(st.viol, Violation{hist, tag, step, "C19: re-encode: EncodeSlab panics on a slab returned by DecodeSlab: " + res.encPanic + " (mutation " + in.kind + ")", "input=" + hex.EncodeToString(d)})
+		if st.encSample == "" {
+			st.encSample = "observation (not a C19 violation): EncodeSlab panics on a slab returned by DecodeSlab: " + res.encPanic + "; input=" + hex.EncodeToString(d)
 		}
 	}
 	if res.encCount != 0 {
 		st.events["reencode_overalloc"]++
-		if r.encodeViolations {
-			st.viol = append(st.viol, Violation{hist, tag, step, fmt.Sprintf("C19: re-encode: EncodeSlab of a slab returned by DecodeSlab would allocate 32*Count bytes for the unchecked MapExtraData.Count=%d of an inlined map (not executed; mutation %s)", res.encCount, in.kind), "input=" + hex.EncodeToString(d)})
+		if st.encSample == "" {
+			st.encSample = fmt.Sprintf("observation (not a C19 violation): EncodeSlab would allocate 32*Count bytes for the unchecked MapExtraData.Count=%d of an inlined map (not executed); input=%s", res.encCount, hex.EncodeToString(d))
 		}
 	}
 	if res.elapsed > 2*time.Second {
@@ -1925,7 +1927,7 @@ func cmdDecode(a Args) {
 	for i := range slots {
 		slots[i] = &c19Slot{}
 	}
-	runner := &c19Runner{post: true, encodeViolations: !strings.Contains(a.Mode, "noencode")}
+	runner := &c19Runner{post: true}
 	mkBatchRng := func(k int) *Rng { return NewRng(a.Seed*0x9E3779B97F4A7C15 ^ (uint64(k)+1)*0xD6E8FEB86659FD93) }
 	traceRegs := 0
 
@@ -2145,6 +2147,7 @@ func cmdDecode(a Args) {
 	// ---- merge ----
 	inputs, accepted := 0, 0
 	violClass := map[string]int{}
+	encSampled, encSample := false, ""
 	var maxElapsed time.Duration
 	for k := 0; k < nb; k++ {
 		st := stats[k]
@@ -2180,6 +2183,10 @@ func cmdDecode(a Args) {
 		if st.accepted > 0 && st.accepted < st.inputs {
 			rep.Distinct(tag)
 		}
+		if st.encSample != "" && !encSampled {
+			encSampled = true
+			encSample = st.encSample
+		}
 		if len(st.trace) > 0 {
 			tr.Hist(tag, 19)
 			for _, l := range st.trace {
@@ -2214,6 +2221,9 @@ func cmdDecode(a Args) {
 	rep.EventN("time_corpus_ms", int(tCorpus/time.Millisecond))
 	rep.EventN("time_alloc_phase_ms", int((tB-tCorpus)/time.Millisecond))
 	rep.EventN("time_parallel_phase_ms", int((tA-tB)/time.Millisecond))
+	if encSampled {
+		rep.Samples = append(rep.Samples, encSample) // kept in full: it is the replay input of the observation
+	}
 	rep.Sample(fmt.Sprintf("inputs=%d accepted=%d batches=%d registers=%d/%d workers=%d quota=%d", inputs, accepted, rep.Histories, len(regs), len(all), workers, quota))
 	tr.Close()
 	rep.Write(a.Out + "/report.json")
